@@ -558,6 +558,134 @@ fn mixed_run(seed: u64, run: u64) -> RunOutcome {
     out
 }
 
+// ---------------------------------------------------------------------------
+// long single-thread history through the other public route
+// ---------------------------------------------------------------------------
+//
+// `keygen(seed)` is `SecretKey::generate_from_seed(seed)` + `PublicKey::from_secret_key`. A program
+// may call those two itself, and may do so many times on one thread. State that `keygen` sets up or
+// refreshes on entry, and that the inner route only consumes, runs out after a long enough history.
+// One thread generates `count` key pairs through the inner route (signing now and then in between);
+// each pair is compared with `keygen(seed)` in a process of its own.
+
+fn history_seeds(seed: u64, n: usize, count: usize) -> Vec<[u8; 32]> {
+    let mut rng = Prng::new(report::run_seed(seed, "C15long", n as u64));
+    (0..count).map(|_| rng.seed32()).collect()
+}
+
+/// the history on this thread: hash(sk) || hash(pk) per seed (16 bytes each); stops at an unwind
+fn history_here<V: Variant>(seeds: &[[u8; 32]]) -> Vec<u8> {
+    let mut out = Vec::with_capacity(16 * seeds.len());
+    for (i, s) in seeds.iter().enumerate() {
+        match world::keygen_sim_route::<V>(*s, None, None, 1).0 {
+            Ok((sk, pk)) => {
+                out.extend_from_slice(&hash_bytes(0, &V::sk_to_bytes(&sk)).to_le_bytes());
+                out.extend_from_slice(&hash_bytes(0, &V::pk_to_bytes(&pk)).to_le_bytes());
+                if i % 8 == 3 {
+                    let _ = world::sign_sim::<V>(&sk, b"between two key generations", &world::SignPlan::uniform(i as u64), None);
+                }
+            }
+            Err(_) => break,
+        }
+    }
+    out
+}
+
+fn key_hashes<V: Variant>(seed: [u8; 32]) -> Vec<u8> {
+    match world::keygen_sim::<V>(seed, None, None).0 {
+        Ok((sk, pk)) => {
+            let mut v = hash_bytes(0, &V::sk_to_bytes(&sk)).to_le_bytes().to_vec();
+            v.extend_from_slice(&hash_bytes(0, &V::pk_to_bytes(&pk)).to_le_bytes());
+            v
+        }
+        Err(_) => Vec::new(),
+    }
+}
+
+/// both histories (one process each) and all reference key generations in one parallel batch
+fn long_histories(seed: u64, c512: usize, c1024: usize, w: usize) -> RunOutcome {
+    let s512 = history_seeds(seed, 512, c512);
+    let s1024 = history_seeds(seed, 1024, c1024);
+    const B: u64 = 1 << 32;
+    let mut items: Vec<u64> = vec![B, 0]; // the two histories first (the longer one first)
+    items.extend((1..=c1024 as u64).map(|i| B | i));
+    items.extend(1..=c512 as u64);
+    let job = |id: u64| -> Vec<u8> {
+        let i = (id & (B - 1)) as usize;
+        match (id >= B, i) {
+            (false, 0) => history_here::<V512>(&s512),
+            (true, 0) => history_here::<V1024>(&s1024),
+            (false, _) => key_hashes::<V512>(s512[i - 1]),
+            (true, _) => key_hashes::<V1024>(s1024[i - 1]),
+        }
+    };
+    let raw = crate::isolate::fork_map(&items, w, None, &job);
+    let mut out = RunOutcome::default();
+    for (n, seeds, base) in [(512usize, &s512, 0u64), (1024usize, &s1024, B)] {
+        out.stats.inc("runs");
+        out.stats.inc("runs.long_history");
+        let count = seeds.len();
+        let hist = match raw.get(&base) {
+            Some(Ok(h)) => h.clone(),
+            _ => {
+                out.violations.push(Violation {
+                    property: PROP,
+                    class: format!("run's process died: long keygen{} history", n),
+                    detail: String::new(),
+                    replay: json!({"kind": "long-history", "n": n, "seeds": seeds.iter().map(|s| hex(s)).collect::<Vec<_>>()}),
+                    run: (1 << 41) + 20 + (n as u64 >> 10),
+                });
+                continue;
+            }
+        };
+        for i in 0..count {
+            out.stats.evaluations += 1;
+            out.stats.inc("long_history.keygen_calls");
+            let here = hist.get(16 * i..16 * i + 16);
+            let there = raw.get(&(base | (i as u64 + 1))).and_then(|r| r.as_ref().ok()).filter(|b| b.len() == 16);
+            out.stats.inc("fault.P1_fresh_process");
+            let bad = match (here, there) {
+                (Some(a), Some(b)) => a != &b[..],
+                (None, _) => true,  // the history stopped early (an unwind in key generation)
+                (_, None) => false, // the reference process failed: liveness of keygen(seed) is judged elsewhere
+            };
+            if bad {
+                out.violations.push(Violation {
+                    property: PROP,
+                    class: format!("keygen{} returned different key pairs for the same seed", n),
+                    detail: format!("seed {}: call {} of a long single-thread history through SecretKey::generate_from_seed + PublicKey::from_secret_key vs keygen(seed) in a fresh process", hex(&seeds[i]), i),
+                    replay: json!({"kind": "long-history", "n": n, "seeds": seeds[..=i].iter().map(|s| hex(s)).collect::<Vec<_>>()}),
+                    run: (1 << 41) + 20 + (n as u64 >> 10),
+                });
+                break;
+            }
+            out.stats.distinct.insert(hash_bytes(n as u64 + 7, &seeds[i]));
+        }
+    }
+    out
+}
+
+fn replay_long_history(doc: &Value) -> Option<String> {
+    let n = doc.get("n")?.as_u64()? as usize;
+    let seeds: Vec<[u8; 32]> = doc.get("seeds")?.as_array()?.iter().map(|s| unhex(s.as_str()?)?.try_into().ok()).collect::<Option<Vec<_>>>()?;
+    let last = *seeds.last()?;
+    let s2 = seeds.clone();
+    let hist = crate::isolate::isolated(move || if n == 512 { history_here::<V512>(&s2) } else { history_here::<V1024>(&s2) }, crate::isolate::run_timeout_s());
+    let hist = match hist {
+        Ok(h) => h,
+        Err(_) => return Some(format!("run's process died: long keygen{} history", n)),
+    };
+    let (sk, pk) = fresh(n, &last).ok()?;
+    let mut want = hash_bytes(0, &sk).to_le_bytes().to_vec();
+    want.extend_from_slice(&hash_bytes(0, &pk).to_le_bytes());
+    let i = seeds.len() - 1;
+    if hist.get(16 * i..16 * i + 16) != Some(&want[..]) {
+        Some(format!("keygen{} returned different key pairs for the same seed", n))
+    } else {
+        None
+    }
+}
+
 /// pinned seeds whose key generation takes a rare branch (many attempts, a range rejection):
 /// "<n> <counter>" lines in corpus/C15/hard-seeds.txt; each is generated three times in fresh processes
 pub fn pinned_hard() -> Vec<(usize, u64)> {
@@ -621,6 +749,7 @@ pub fn replay(doc: &Value) -> Option<String> {
                 run_plan::<V1024>(&plan, k, true).class.map(|c| c.0)
             }
         }
+        "long-history" => replay_long_history(doc),
         "mixed-keygen" => {
             let seq: Vec<(usize, [u8; 32])> = doc
                 .get("seq")?
@@ -783,6 +912,12 @@ pub fn check(tier: Tier, seed: u64) -> i32 {
             return 2;
         }
     }
+    // long single-thread histories through the inner route
+    {
+        let (c512, c1024) = if tier == Tier::Quick { (72, 34) } else { (400, 160) };
+        let o = long_histories(seed, c512, c1024, w);
+        rep.absorb(o);
+    }
     for i in 0..ctx.nb512 {
         let mut r = Prng::new(report::run_seed(seed, "C15nb512", i as u64));
         let o = neighbourhood::<V512>(r.seed32(), w);
@@ -793,7 +928,7 @@ pub fn check(tier: Tier, seed: u64) -> i32 {
         let o = neighbourhood::<V1024>(r.seed32(), w);
         rep.absorb(o);
     }
-    rep.rule = "a case is one keygen(seed) call: (i) inside a seeded multi-thread plan where every seed occurs 2-3 times on the same or different baton-scheduled threads (pre-emption at the draws of keygen's seed-expanded stream and of concurrent sign calls), with or without a simulator stream installed behind the ambient seam, plus once in a fresh child process; (i') the same in a deep batch (instrumented build: pre-emption at function entries, so also between two loads of shared state inside the sampler); (ii) in a mixed-variant sequence of keygens on one thread, each compared with a fresh process; (iii) three times in fresh processes for the seeds that need the most ntru_gen attempts (adaptively chosen from the neighbourhoods, and pinned in corpus/C15/hard-seeds.txt); (iv) on one of the 256 single-bit neighbours of a sampled base seed (the neighbourhood of each sampled base seed is enumerated completely; base seeds are sampled). Non-trivial for (i): the call was pre-empted mid-call; for (ii): every neighbour. Distinct = distinct (schedule trace, thread, seed) resp. distinct key pairs".into();
+    rep.rule = "a case is one keygen(seed) call: (i) inside a seeded multi-thread plan where every seed occurs 2-3 times on the same or different baton-scheduled threads (pre-emption at the draws of keygen's seed-expanded stream and of concurrent sign calls), with or without a simulator stream installed behind the ambient seam, plus once in a fresh child process; (i') the same in a deep batch (instrumented build: pre-emption at function entries, so also between two loads of shared state inside the sampler); (ii) in a mixed-variant sequence of keygens on one thread, each compared with a fresh process; (ii') in a long single-thread history (72 Falcon-512 / 34 Falcon-1024 pairs in quick, 400 / 160 in thorough) through SecretKey::generate_from_seed + PublicKey::from_secret_key with a sign call now and then, each pair compared with keygen(seed) in a fresh process; (iii) three times in fresh processes for the seeds that need the most ntru_gen attempts (adaptively chosen from the neighbourhoods, and pinned in corpus/C15/hard-seeds.txt); (iv) on one of the 256 single-bit neighbours of a sampled base seed (the neighbourhood of each sampled base seed is enumerated completely; base seeds are sampled). Non-trivial for (i): the call was pre-empted mid-call; for (ii): every neighbour. Distinct = distinct (schedule trace, thread, seed) resp. distinct key pairs".into();
     rep.assumptions = vec![
         "keygen is stopped after 3000 ntru_gen attempts' worth of draws (bounded liveness; a correct tree needs 13 resp. 24 attempts on average)".into(),
         "an ambient-entropy draw inside keygen is recorded as a probe, not an alarm; only differing key bytes are".into(),
